@@ -42,8 +42,9 @@ def struct_eq(a, b) -> bool:
         return a.keys() == b.keys() and all(struct_eq(a[k], b[k]) for k in a)
     if isinstance(a, (set, frozenset)):
         return a == b
-    if hasattr(a, "model_dump"):
-        return struct_eq(a.model_dump(), b.model_dump())
+    if hasattr(type(a), "model_fields"):
+        # field by field on the objects themselves: model_dump() would hide a field that the model excludes from dumps
+        return all(struct_eq(getattr(a, f), getattr(b, f)) for f in type(a).model_fields)
     if hasattr(a, "__dict__") and not isinstance(a, type):
         return struct_eq(vars(a), vars(b))
     return a == b
@@ -352,7 +353,7 @@ def run_jobjson(acc: Acc, maxn: int):
             continue
         ok = (
             list(back.tasks) == list(job.tasks)
-            and all(back.tasks[t].model_dump() == job.tasks[t].model_dump() for t in job.tasks)
+            and all(struct_eq(back.tasks[t], job.tasks[t]) for t in job.tasks)
             and [(e.source, e.sink_task, e.sink_input_kw, e.sink_input_ps) for e in back.edges] == [(e.source, e.sink_task, e.sink_input_kw, e.sink_input_ps) for e in job.edges]
             and back.ext_outputs == job.ext_outputs
             and {k: tuple(v) for k, v in back.serdes.items()} == {k: tuple(v) for k, v in job.serdes.items()}
